@@ -10,11 +10,16 @@ EXTENDS GramUnify
 CONSTANT CopyHoles
 \* a store is a sequence: st[id] = solution term or Unsolved.  S(t, st, fresh) results carry the store and the number of copies
 R3(t, st, n) == [t |-> t, st |-> st, n |-> n]
+\* raising a term SEES THROUGH solved holes (signed_shift replaces a solved hole by its solution, raised by the hole's shift, and
+\* goes on inside it): a solved hole whose own shift is below the cutoff still has free variables that must move
+UpS(t, c, s, st) == LET r == Res(t, st, 60) IN Up(IF r.ok THEN r.t ELSE t, c, s)
+EntryDefS(ctx, i, st) == LET e == Lookup(ctx, i) IN IF e.def.k = "nodef" THEN NoDef ELSE UpS(e.def, 0, Len(ctx) - e.len, st)
+EntryTyS(ctx, i, st) == LET e == Lookup(ctx, i) IN UpS(e.ty, 0, Len(ctx) - e.len, st)
 RECURSIVE OpenS(_,_,_,_,_,_)
 OpenS(t, i, u, s, st, n) ==
-  CASE t.k = "var" -> R3(IF t.i = i THEN Up(u, 0, s) ELSE IF t.i > i THEN [t EXCEPT !.i = t.i - 1] ELSE t, st, n)
+  CASE t.k = "var" -> R3(IF t.i = i THEN UpS(u, 0, s, st) ELSE IF t.i > i THEN [t EXCEPT !.i = t.i - 1] ELSE t, st, n)
     [] t.k = "hole" ->
-         IF t.id <= Len(st) /\ st[t.id].k # "none" THEN OpenS(Up(st[t.id], 0, t.sh), i, u, s, st, n)
+         IF t.id <= Len(st) /\ st[t.id].k # "none" THEN OpenS(UpS(st[t.id], 0, t.sh, st), i, u, s, st, n)
          ELSE LET sh2 == IF t.sh > i THEN t.sh - 1 ELSE t.sh IN
               IF CopyHoles THEN R3(Hole(Len(st) + 1, sh2), Append(st, Unsolved), n + 1)       \* OpenHoleFresh
               ELSE R3(Hole(t.id, sh2), st, n)
@@ -39,8 +44,8 @@ ElimS(defs, body, st, n) ==
   IF Len(defs) = 0 THEN R3(body, st, n) ELSE
   LET m == Len(defs)  d == defs[1]  idx == m - 1
       self == [k |-> "var", i |-> 0, n |-> d.n]
-      a1 == OpenS(Up(d.ann, 0, 1), idx + 1, self, 0, st, n)
-      d1 == OpenS(Up(d.def, 0, 1), idx + 1, self, 0, a1.st, a1.n)
+      a1 == OpenS(UpS(d.ann, 0, 1, st), idx + 1, self, 0, st, n)
+      d1 == OpenS(UpS(d.def, 0, 1, a1.st), idx + 1, self, 0, a1.st, a1.n)
       u == OpenS(d.def, idx, LetT(<<[n |-> d.n, ann |-> a1.t, def |-> d1.t]>>, self), 0, d1.st, d1.n)
       RECURSIVE go(_,_,_)
       go(j, st1, n1) == IF j > m THEN [ds |-> <<>>, st |-> st1, n |-> n1] ELSE
@@ -55,8 +60,8 @@ NoFuel == [ok |-> FALSE]
 RECURSIVE WhnfS(_,_,_,_,_)
 WhnfS(t, ctx, st, n, f) ==
   IF f = 0 THEN NoFuel ELSE
-  CASE t.k = "hole" -> IF t.id <= Len(st) /\ st[t.id].k # "none" THEN WhnfS(Up(st[t.id], 0, t.sh), ctx, st, n, f - 1) ELSE W5(t, st, n, f)
-    [] t.k = "var" -> IF t.i >= Len(ctx) THEN W5(t, st, n, f) ELSE LET d == EntryDef(ctx, t.i) IN IF d.k = "nodef" THEN W5(t, st, n, f) ELSE WhnfS(d, ctx, st, n, f - 1)
+  CASE t.k = "hole" -> IF t.id <= Len(st) /\ st[t.id].k # "none" THEN WhnfS(UpS(st[t.id], 0, t.sh, st), ctx, st, n, f - 1) ELSE W5(t, st, n, f)
+    [] t.k = "var" -> IF t.i >= Len(ctx) THEN W5(t, st, n, f) ELSE LET d == EntryDefS(ctx, t.i, st) IN IF d.k = "nodef" THEN W5(t, st, n, f) ELSE WhnfS(d, ctx, st, n, f - 1)
     [] t.k = "app" -> LET fa == WhnfS(t.a, ctx, st, n, f - 1) IN IF ~fa.ok THEN NoFuel ELSE
                       IF fa.t.k = "lam" THEN LET o == OpenS(fa.t.b, 0, t.b, 0, fa.st, fa.n) IN WhnfS(o.t, ctx, o.st, o.n, fa.f)
                       ELSE W5([t EXCEPT !.a = fa.t], fa.st, fa.n, fa.f)
@@ -86,8 +91,8 @@ HolesOf(t, st, f) ==
 RECURSIVE SameS(_,_,_,_)
 SameS(x, y, st, f) ==
   IF f = 0 THEN FALSE ELSE
-  IF x.k = "hole" /\ x.id <= Len(st) /\ st[x.id].k # "none" THEN SameS(Up(st[x.id], 0, x.sh), y, st, f - 1) ELSE
-  IF y.k = "hole" /\ y.id <= Len(st) /\ st[y.id].k # "none" THEN SameS(x, Up(st[y.id], 0, y.sh), st, f - 1) ELSE
+  IF x.k = "hole" /\ x.id <= Len(st) /\ st[x.id].k # "none" THEN SameS(UpS(st[x.id], 0, x.sh, st), y, st, f - 1) ELSE
+  IF y.k = "hole" /\ y.id <= Len(st) /\ st[y.id].k # "none" THEN SameS(x, UpS(st[y.id], 0, y.sh, st), st, f - 1) ELSE
   /\ x.k = y.k
   /\ CASE x.k = "var" -> x.i = y.i
        [] x.k = "hole" -> x.id = y.id /\ x.sh = y.sh
@@ -102,8 +107,10 @@ SameS(x, y, st, f) ==
        [] OTHER -> TRUE
 \* the algorithm: [r |-> "yes" | "no" | "fuel", st, n, f]
 U4(r, st, n, f) == [r |-> r, st |-> st, n |-> n, f |-> f]
+\* lowering a candidate solution by the hole's shift sees through holes that are already solved (signed_shift follows them)
+LowS(t, sh, st) == LET r == Res(t, st, 40) IN IF ~r.ok THEN [ok |-> FALSE] ELSE Shift(r.t, 0, -sh)
 Solve(id, sh, other, st, n, f) ==
-  LET low == Shift(other, 0, -sh) IN
+  LET low == LowS(other, sh, st) IN
   IF ~low.ok THEN U4("no", st, n, f)                                           \* lowering fails: not solvable
   ELSE IF id \in HolesOf(other, st, 40) THEN U4("no", st, n, f)                \* occurs check
   ELSE U4("yes", [j \in 1..Len(st) |-> IF j = id THEN low.t ELSE st[j]], n, f)
@@ -115,8 +122,8 @@ UnifyA(x, y, ctx, st, n, f) ==
   LET wy == WhnfS(y, ctx, wx.st, wx.n, wx.f) IN IF ~wy.ok THEN U4("fuel", st, n, 0) ELSE
   LET a == wx.t  b == wy.t  s1 == wy.st  n1 == wy.n  g == wy.f - 1 IN
   IF a.k = "hole" /\ b.k = "hole" /\ a.id = b.id /\ a.sh = b.sh THEN U4("yes", s1, n1, g)
-  ELSE IF a.k = "hole" /\ Shift(b, 0, -a.sh).ok THEN Solve(a.id, a.sh, b, s1, n1, g)
-  ELSE IF b.k = "hole" /\ Shift(a, 0, -b.sh).ok THEN Solve(b.id, b.sh, a, s1, n1, g)
+  ELSE IF a.k = "hole" /\ LowS(b, a.sh, s1).ok THEN Solve(a.id, a.sh, b, s1, n1, g)
+  ELSE IF b.k = "hole" /\ LowS(a, b.sh, s1).ok THEN Solve(b.id, b.sh, a, s1, n1, g)
   ELSE IF a.k # b.k THEN U4("no", s1, n1, g)
   ELSE
   CASE a.k = "var" -> U4(IF a.i = b.i THEN "yes" ELSE "no", s1, n1, g)
